@@ -82,6 +82,11 @@ type FollowerController interface {
 type followerController struct {
 	sync.Mutex
 
+	// Held while committed entries are applied to the database and while a snapshot is installed.
+	// The apply loop does not hold the controller mutex: without this, an entry read from the
+	// old log could be applied to the database that was just restored from the snapshot.
+	applyMutex sync.Mutex
+
 	namespace string
 	shardId   int64
 	term      int64
@@ -565,8 +570,11 @@ func (fc *followerController) applyAllCommittedEntries() {
 		}
 		fc.Unlock()
 
+		fc.applyMutex.Lock()
 		maxInclusive := fc.advertisedCommitOffset.Load()
-		if err := fc.processCommittedEntries(maxInclusive); err != nil {
+		err := fc.processCommittedEntries(maxInclusive)
+		fc.applyMutex.Unlock()
+		if err != nil {
 			fc.closeStream(err)
 			close(fc.applyEntriesDone)
 			return
